@@ -4,10 +4,11 @@
 package bounds
 
 import (
-	"go/constant"
 	"fmt"
+	"go/constant"
 	"go/token"
 	"go/types"
+	"math"
 	"sort"
 	"strings"
 
@@ -28,26 +29,68 @@ func konst(c int64) Lin { return Lin{C: c, Coef: map[string]int64{}, ok: true} }
 
 func atom(a string) Lin { return Lin{Coef: map[string]int64{a: 1}, ok: true} }
 
+// overflowAtom poisons a term whose arithmetic left the int64 range: it is
+// never known non-negative, so nothing can be proved from or about the term.
+const overflowAtom = "<overflow>"
+
+func mulOv(a, b int64) (int64, bool) {
+	if a == 0 || b == 0 {
+		return 0, false
+	}
+	p := a * b
+	if p/b != a || (a == -1 && b == math.MinInt64) || (b == -1 && a == math.MinInt64) {
+		return 0, true
+	}
+	return p, false
+}
+
+func addOv(a, b int64) (int64, bool) {
+	s := a + b
+	if (b > 0 && s < a) || (b < 0 && s > a) {
+		return 0, true
+	}
+	return s, false
+}
+
 func (l Lin) add(o Lin, k int64) Lin {
-	r := Lin{C: l.C + k*o.C, Coef: map[string]int64{}, ok: l.ok && o.ok}
+	r := Lin{Coef: map[string]int64{}, ok: l.ok && o.ok}
+	ov := false
+	kc, o1 := mulOv(k, o.C)
+	sum, o2 := addOv(l.C, kc)
+	r.C, ov = sum, o1 || o2
 	for a, c := range l.Coef {
 		r.Coef[a] = c
 	}
 	for a, c := range o.Coef {
-		r.Coef[a] += k * c
+		kc, o1 := mulOv(k, c)
+		s, o2 := addOv(r.Coef[a], kc)
+		ov = ov || o1 || o2
+		r.Coef[a] = s
 		if r.Coef[a] == 0 {
 			delete(r.Coef, a)
 		}
+	}
+	if ov {
+		r.Coef[overflowAtom] = -1
+		r.ok = false
 	}
 	return r
 }
 
 func (l Lin) scale(k int64) Lin {
-	r := Lin{C: l.C * k, Coef: map[string]int64{}, ok: l.ok}
+	r := Lin{Coef: map[string]int64{}, ok: l.ok}
+	var ov bool
+	r.C, ov = mulOv(l.C, k)
 	for a, c := range l.Coef {
-		if c*k != 0 {
-			r.Coef[a] = c * k
+		ck, o1 := mulOv(c, k)
+		ov = ov || o1
+		if ck != 0 {
+			r.Coef[a] = ck
 		}
+	}
+	if ov {
+		r.Coef[overflowAtom] = -1
+		r.ok = false
 	}
 	return r
 }
